@@ -90,13 +90,19 @@ class AdaClipDPOptimizer(DPOptimizer):
             self.unclipped_num = 0
 
     def clip_and_accumulate(self):
-        per_param_norms = [
-            g.view(len(g), -1).norm(2, dim=-1) for g in self.grad_samples
-        ]
-        per_sample_norms = torch.stack(per_param_norms, dim=1).norm(2, dim=1)
-        per_sample_clip_factor = (self.max_grad_norm / (per_sample_norms + 1e-6)).clamp(
-            max=1.0
-        )
+        if len(self.grad_samples[0]) == 0:
+            # Empty batch
+            per_sample_clip_factor = torch.zeros(
+                (0,), device=self.grad_samples[0].device
+            )
+        else:
+            per_param_norms = [
+                g.reshape(len(g), -1).norm(2, dim=-1) for g in self.grad_samples
+            ]
+            per_sample_norms = torch.stack(per_param_norms, dim=1).norm(2, dim=1)
+            per_sample_clip_factor = (
+                self.max_grad_norm / (per_sample_norms + 1e-6)
+            ).clamp(max=1.0)
 
         # the two lines below are the only changes
         # relative to the parent DPOptimizer class.
@@ -133,6 +139,9 @@ class AdaClipDPOptimizer(DPOptimizer):
         """
         Update clipping bound based on unclipped fraction
         """
+        if self.sample_size == 0:
+            # Empty batch: there is no unclipped fraction to learn from
+            return
         unclipped_frac = self.unclipped_num / self.sample_size
         self.max_grad_norm *= torch.exp(
             -self.clipbound_learning_rate
